@@ -597,6 +597,25 @@ fn run_crash(base: &Path, exe: &Path, toks: &[char]) -> (String, Vec<Failure>) {
             fails.push(Failure { oracle: "not-old-or-new-after-crash", detail: format!("file holds {} but allowed are {:?}", shown, allowed) });
         }
     }
+    // a later session in the directory the dead process left behind (whatever temporary files are still there): a
+    // change that is accepted, flushed and closed normally must be on disk afterwards
+    if p.is_some() {
+        let recovered = (|| -> Option<Table> {
+            let mut d = TrieBuf::open(&path).ok()?;
+            d.update_phrase(&[key_syllable(6)], Phrase::new(PHRASE, 4242), 4242, 4242).ok()?;
+            d.flush().ok()?;
+            drop(d);
+            Some(disk_table(&path))
+        })();
+        match recovered {
+            Some(Some(t)) if t.get(&6) == Some(&4242) => {}
+            Some(other) => fails.push(Failure {
+                oracle: "change-after-a-crash-not-durable",
+                detail: format!("after the crash a new session updated key 6 to 4242, flushed and closed; the file then holds {}", fmt_table(&other)),
+            }),
+            None => fails.push(Failure { oracle: "change-after-a-crash-not-durable", detail: "the session after the crash could not open / update / flush the dictionary".into() }),
+        }
+    }
     let _ = std::fs::remove_dir_all(&dir);
     let mut tk: Vec<char> = toks.to_vec();
     tk.push('!');
